@@ -30,13 +30,14 @@ type c01case struct {
 	quicLike bool
 	realQUIC bool
 	rootDir  bool
+	leftover bool // the output directory already holds files of the same names with other content
 	twice    bool // fetch the same tree a second time into the same output (everything already there)
 	maxFiles int
 }
 
 func (c c01case) String() string {
-	return fmt.Sprintf("seed=%d cs=%d streams=%d conns=%d resume=%v quicLike=%v realQUIC=%v rootDir=%v twice=%v maxFiles=%d",
-		c.seed, c.cs, c.streams, c.conns, c.resume, c.quicLike, c.realQUIC, c.rootDir, c.twice, c.maxFiles)
+	return fmt.Sprintf("seed=%d cs=%d streams=%d conns=%d resume=%v quicLike=%v realQUIC=%v rootDir=%v twice=%v leftover=%v maxFiles=%d",
+		c.seed, c.cs, c.streams, c.conns, c.resume, c.quicLike, c.realQUIC, c.rootDir, c.twice, c.leftover, c.maxFiles)
 }
 
 type c01outcome struct {
@@ -64,6 +65,34 @@ func runC01case(base string, c c01case, timeout time.Duration, env *c08env) c01o
 	for _, f := range tree.files {
 		o.nchunks += (len(f.data) + c.cs - 1) / c.cs
 	}
+	if c.leftover {
+		// the output directory is not empty: files of the same names are lying there already
+		// (an older copy, an aborted download of something else), without any metadata
+		dst := out
+		if c.rootDir {
+			dst = filepath.Join(out, "root")
+		}
+		lr := hx.NewRand(c.seed ^ 0x1ef7)
+		for _, f := range tree.files {
+			var junk []byte
+			switch lr.Intn(4) {
+			case 0:
+				continue
+			case 1:
+				junk = lr.Bytes(len(f.data))
+			case 2:
+				junk = lr.Bytes(len(f.data) + 1 + lr.Intn(2*c.cs))
+			default:
+				junk = lr.Bytes(lr.Intn(len(f.data) + 1))
+			}
+			for j := range junk {
+				junk[j] |= 1 // never a zero byte: whatever is not overwritten shows
+			}
+			fp := filepath.Join(dst, filepath.FromSlash(f.rel))
+			os.MkdirAll(filepath.Dir(fp), 0755)
+			os.WriteFile(fp, junk, 0644)
+		}
+	}
 	rounds := 1
 	if c.twice {
 		rounds = 2
@@ -76,7 +105,7 @@ func runC01case(base string, c c01case, timeout time.Duration, env *c08env) c01o
 			for i := range tree.files {
 				f := &tree.files[i]
 				var nd []byte
-				switch r.Intn(6) {
+				switch r.Intn(7) {
 				case 0:
 					continue
 				case 1:
@@ -91,6 +120,15 @@ func runC01case(base string, c c01case, timeout time.Duration, env *c08env) c01o
 					nd = nil
 				case 4:
 					nd = append(append([]byte{}, f.data...), r.Bytes(1+r.Intn(2*c.cs))...)
+				case 5:
+					// same length, whole chunks blanked (a hole punched into an image)
+					nd = append([]byte{}, f.data...)
+					if n := len(nd) / c.cs; n > 0 {
+						k := r.Intn(n)
+						for j := k * c.cs; j < (k+1+r.Intn(n-k))*c.cs; j++ {
+							nd[j] = 0
+						}
+					}
 				default:
 					nd = r.Bytes(len(f.data))
 				}
@@ -199,7 +237,8 @@ func c01cases(rng *hx.Rand, n int, quicShare int) []c01case {
 		if c.cs == 1 {
 			c.maxFiles = rng.Pick(0, 1, 3)
 		}
-		c.twice = c.resume && rng.Intn(4) == 0
+		c.twice = rng.Intn(4) == 0
+		c.leftover = rng.Intn(4) == 0
 		if quicShare > 0 && i%quicShare == 0 {
 			c.realQUIC, c.quicLike = true, false
 			c.conns = rng.Pick(1, 1, 2)
@@ -244,6 +283,12 @@ func runTransfers(cfg config, rep *hx.Report, prop string, n int, quicShare int)
 		}
 		rep.Count(kind)
 		rep.Count(fmt.Sprintf("conns:%d", c.conns))
+		if c.twice {
+			rep.Count("second-fetch")
+		}
+		if c.leftover {
+			rep.Count("leftover-output-files")
+		}
 		if c.rootDir {
 			rep.Count("root-dir-mode")
 		}
@@ -281,7 +326,7 @@ func runTransfers(cfg config, rep *hx.Report, prop string, n int, quicShare int)
 
 func runC01(cfg config) *hx.Report {
 	rep := hx.NewReport("C01")
-	rep.Rule = "generated trees (0-10 files, sizes around k*chunk +-1, empty files, empty dirs, nesting, odd names) x chunk sizes {1,3,16,4096} x 1-8 streams x 1-3 connections x resume on/off (and a second fetch over the finished tree) x root-directory mode x transport {in-memory with stream visibility at open, in-memory with QUIC-like visibility, real loopback QUIC}; real sender and receiver; non-trivial = at least 2 files or a multi-chunk file; distinct by (tree seed, configuration).  Plus honest stepped-receiver histories for the model correspondence"
+	rep.Rule = "generated trees (0-10 files, sizes around k*chunk +-1, empty files, empty dirs, nesting, odd names) x chunk sizes {1,3,16,4096} x 1-8 streams x 1-3 connections x resume on/off x (a second fetch over the finished tree, the source edited in between: shortened, grown, rewritten, whole chunks blanked) x (output directory already holding files of the same names with other content)  x root-directory mode x transport {in-memory with stream visibility at open, in-memory with QUIC-like visibility, real loopback QUIC}; real sender and receiver; non-trivial = at least 2 files or a multi-chunk file; distinct by (tree seed, configuration).  Plus honest stepped-receiver histories for the model correspondence"
 	n, share := 400, 5
 	if cfg.tier == "thorough" {
 		n, share = 2500, 4
